@@ -97,3 +97,24 @@ Definition sess_mis_y (cs : list sess_case) : list N :=
 (** inside the script every call gives the function's results *)
 Definition sess_mis_g (cs : list sess_case) : list N :=
   flat_map (fun '(id, _, _, ref) => if forallb (outcome_eqb OOk) ref then [] else [id]) cs.
+
+Definition arep_eqb (a b : arep) : bool :=
+  match a, b with
+  | ARaw, ARaw | AWrap, AWrap | AFail, AFail => true
+  | ABox _, ABox _ => true      (* the host sees an interp.valueInterface whatever the nesting *)
+  | _, _ => false
+  end.
+
+(** id, parameter type, has the value's type methods, shape, forwarded through, sink, observed class, contract class *)
+Definition echo_case := (N * ptype * bool * ashape * nat * asink * arep * arep)%type.
+Definition echo_mis_y (cs : list echo_case) : list N :=
+  flat_map (fun '(id, p, hm, sh, d, k, impl, _) => if arep_eqb (y_echo p hm sh d k) impl then [] else [id]) cs.
+Definition echo_mis_g (cs : list echo_case) : list N :=
+  flat_map (fun '(id, _, _, _, _, k, _, ref) => if arep_eqb (g_echo k) ref then [] else [id]) cs.
+
+(** id, form, callee, received the later value? (impl), (compiled Go's rule) *)
+Definition stmt_case := (N * sform * callee * bool * bool)%type.
+Definition stmt_mis_y (cs : list stmt_case) : list N :=
+  flat_map (fun '(id, f, c, impl, _) => if Bool.eqb (y_stmt_late f c) impl then [] else [id]) cs.
+Definition stmt_mis_g (cs : list stmt_case) : list N :=
+  flat_map (fun '(id, _, _, _, ref) => if Bool.eqb false ref then [] else [id]) cs.
